@@ -361,6 +361,177 @@ func c11Compose(b c11Base, r1, r2 c11Rel) (msg string, nontrivial bool) {
 	return "", nontrivial
 }
 
+// ---- segment names that merely look like syntax -----------------------------
+
+var (
+	c11OddOnce sync.Once
+	c11OddU    *c11Universe
+)
+
+// c11Odd is a second, smaller universe whose segment names begin with dots
+// without being "." or "..", or contain a question mark.
+func c11Odd() *c11Universe {
+	c11OddOnce.Do(func() {
+		u := &c11Universe{}
+		seen := map[string]bool{}
+		alphabet := []string{"..foo", "...", "q?", ".", "..", "x"}
+		var gen func(prefix []string, depth int)
+		gen = func(prefix []string, depth int) {
+			if len(prefix) > 0 {
+				s := strings.Join(prefix, "/")
+				cands := []string{"./" + s, "../" + s}
+				if strings.HasPrefix(s, "./") || strings.HasPrefix(s, "../") {
+					cands = append(cands, s)
+				}
+				for _, c := range cands {
+					if seen[c] {
+						continue
+					}
+					seen[c] = true
+					v, err := sourceaddrs.ParseLocalSource(c)
+					if err != nil {
+						u.rejected++
+						continue
+					}
+					u.rels = append(u.rels, c11Rel{str: c, ref: ref.ParseLocal(c), val: v, len: len(prefix)})
+				}
+			}
+			if depth == 0 {
+				return
+			}
+			for _, a := range alphabet {
+				gen(append(append([]string(nil), prefix...), a), depth-1)
+			}
+		}
+		gen(nil, 3)
+		for i, r := range u.rels {
+			if r.len <= 2 {
+				u.smallRels = append(u.smallRels, i)
+			}
+		}
+		for _, r := range u.rels {
+			if r.ref.Ups+len(r.ref.Names) <= 3 {
+				u.bases = append(u.bases, c11Base{kind: "local", str: r.str, local: r.ref, src: r.val, final: r.val})
+			}
+		}
+		var subs [][]string
+		names := []string{"..foo", "...", "q?", "x"}
+		subs = append(subs, nil)
+		for _, a := range names {
+			subs = append(subs, []string{a})
+			for _, b := range names {
+				subs = append(subs, []string{a, b})
+			}
+		}
+		esc := func(sub []string) string {
+			out := make([]string, len(sub))
+			for i, n := range sub {
+				out[i] = strings.ReplaceAll(n, "?", "%3F")
+			}
+			return strings.Join(out, "/")
+		}
+		for pi, pk := range []string{"git::https://example.com/repo.git", "https://example.com/pkg.tgz"} {
+			for _, sub := range subs {
+				s := pk
+				if len(sub) > 0 {
+					s += "//" + esc(sub)
+				}
+				s += []string{"?ref=main", ""}[pi]
+				v, err := sourceaddrs.ParseRemoteSource(s)
+				if err != nil || v.SubPath() != strings.Join(sub, "/") {
+					u.rejected++
+					continue
+				}
+				u.bases = append(u.bases, c11Base{kind: "remote", str: s, pkg: v.Package().String(), sub: sub, src: v, final: v})
+			}
+		}
+		for _, sub := range subs {
+			if strings.Contains(strings.Join(sub, "/"), "?") {
+				continue
+			}
+			pk := "example.com/ns/name/sys"
+			s, fs := pk, pk+"@1.2.3"
+			if len(sub) > 0 {
+				s += "//" + strings.Join(sub, "/")
+				fs += "//" + strings.Join(sub, "/")
+			}
+			if v, err := sourceaddrs.ParseRegistrySource(s); err == nil && v.SubPath() == strings.Join(sub, "/") {
+				u.bases = append(u.bases, c11Base{kind: "registry", str: s, pkg: v.Package().String(), sub: sub, src: v})
+				if fv, err := sourceaddrs.ParseFinalSource(fs); err == nil {
+					u.bases = append(u.bases, c11Base{kind: "final", str: fs, pkg: v.Package().String(), ver: "1.2.3", sub: sub, final: fv})
+				} else {
+					u.rejected++
+				}
+			} else {
+				u.rejected++
+			}
+		}
+		c11OddU = u
+	})
+	return c11OddU
+}
+
+// c11Unwritable: a registry address has no way of writing a question mark in
+// its sub-path, so whether such a result is refused is not judged.
+func c11Unwritable(b c11Base, rels ...c11Rel) bool {
+	if b.kind != "registry" && b.kind != "final" {
+		return false
+	}
+	for _, r := range rels {
+		if strings.Contains(r.str, "?") {
+			return true
+		}
+	}
+	return false
+}
+
+func c11OddPhase() *fw.Phase {
+	return &fw.Phase{
+		Name:       "segment-names-that-look-like-syntax",
+		Exhaustive: true,
+		N: func(string) int {
+			u := c11Odd()
+			return len(u.bases) * len(u.rels)
+		},
+		Run: func(env *fw.Env, idx int) fw.Result {
+			u := c11Odd()
+			b := u.bases[idx/len(u.rels)]
+			r := u.rels[idx%len(u.rels)]
+			res := fw.Result{Hash: fw.HashString("odd|" + b.str + "|" + r.str), Case: map[string]string{"base": b.str, "rel": r.str}}
+			ok, _, _, _ := c11Expect(b, r.ref)
+			res.NonTrivial = true
+			res.Class = b.kind + ":" + map[bool]string{true: "inside", false: "underflow"}[ok]
+			if c11Unwritable(b, r) {
+				res.Class = b.kind + ":not-writable"
+				return res
+			}
+			evals := 1
+			if msg := c11CheckOne(b, r); msg != "" {
+				res.Verdict, res.Msg, res.Finding = fw.Violated, msg, "pair"
+				return res
+			}
+			for _, j := range u.smallRels {
+				r2 := u.rels[j]
+				if c11Unwritable(b, r2) {
+					continue
+				}
+				evals++
+				if msg, _ := c11Compose(b, r, r2); msg != "" {
+					res.Verdict, res.Msg, res.Finding = fw.Violated, msg, "composition"
+					res.Case = map[string]string{"base": b.str, "rel1": r.str, "rel2": r2.str}
+					res.Evals = evals
+					return res
+				}
+			}
+			res.Evals = evals
+			if idx == 0 {
+				res.Obs = map[string]int64{"odd_name_bases": int64(len(u.bases)), "odd_name_relatives": int64(len(u.rels)), "odd_name_spellings_refused_by_the_parser": int64(u.rejected)}
+			}
+			return res
+		},
+	}
+}
+
 func init() {
 	pairs := &fw.Phase{
 		Name:       "pairs-and-triples",
@@ -537,6 +708,6 @@ func init() {
 			"each also composed with every relative string of length <=3 (quick) / <=4 (thorough); plus PRNG longer operands. " +
 			"non-trivial = the relative operand contains '..' or the result collapses to a root; distinct = (base, rel[, rel2]) strings",
 		Assumptions: []string{"the segment-stack reference in harness/ref/pathalg.go is the meaning of 'path algebra'", "addresses are observed through public accessors and String() only"},
-		Phases:      []*fw.Phase{pairs, absolute, regJoin, random},
+		Phases:      []*fw.Phase{pairs, absolute, regJoin, c11OddPhase(), random},
 	})
 }
